@@ -320,6 +320,8 @@ def run(res, rng, tier, known):
     cases = kernel_cases(rng, tier) + local_solver_cases(rng, tier) + monitor_cases(rng, tier, stats)
     run_cases(res, cases, known)
     trace_cases(res, rng, tier)
+    import einsum2lean
+    einsum2lean.check(res, "C12")      # translator tie: the kernels' subscript strings, read from the current source, are the model kernels (Lean: rfl)
     if stats:
         res.extra["contract_monitor_runs"] = len(stats)
         res.extra["contract_monitor_max_residual_over_eps"] = max(s[2] for s in stats)
